@@ -2,7 +2,7 @@
 import argparse, fcntl, hashlib, json, os, re, shutil, subprocess, sys, time
 
 VERIF = os.path.dirname(os.path.dirname(os.path.abspath(__file__)))
-REPO = "/repo"
+REPO = os.environ.get("VERIF_REPO", "/repo")   # the tree under test; only tools/try_seeded.py overrides it (scratch copy)
 BUILD = os.path.join(VERIF, ".build")
 WORK = os.path.join(VERIF, ".work")
 REPLAYS = os.path.join(VERIF, "replays")
@@ -101,6 +101,12 @@ def build_ocaml():
 def build_go():
     """Always rebuilt: the implementation under test is /repo's working tree."""
     shutil.copyfile(os.path.join(REPO, "go.sum"), os.path.join(VERIF, "harness", "go.sum"))
+    if REPO != "/repo":
+        # scratch copy of /verif testing a scratch copy of the repository: point the modules at it
+        for gm in (os.path.join(VERIF, "harness", "go.mod"), os.path.join(VERIF, "harness", "racework", "go.mod")):
+            txt = open(gm).read()
+            txt = re.sub(r"(github.com/couchbase/moss => )\S+", lambda m: m.group(1) + REPO, txt)
+            open(gm, "w").write(txt)
     rc, out = sh(["go", "build", "-tags", "verif", "-o", os.path.join(BUILD, "director"), "./director"],
                  cwd=os.path.join(VERIF, "harness"), env=GOENV, timeout=900)
     return rc == 0, out
